@@ -311,6 +311,14 @@ var zzIDLists = [][]uint64{
 	{2, 1, 4, 3}, // valid, own operator inside, NOT in ascending order (share data is positional)
 }
 
+// operator sets named by cluster events: the two registered clusters and a superset of both (a different cluster:
+// an event for it must not touch the validators of the smaller ones)
+var zzClusterLists = [][]uint64{
+	{1, 2, 3, 4},
+	{1, 3, 4, 5},
+	{1, 2, 3, 4, 5},
+}
+
 // zzGenEvent builds one symbolic registry event, appends it to the parser table and returns its log.
 func zzGenEvent(p *zzParser, ref *zzRef, kindsAllowed int) ethtypes.Log {
 	kind := 0
@@ -411,10 +419,10 @@ func zzGenEvent(p *zzParser, ref *zzRef, kindsAllowed int) ethtypes.Log {
 		ev.fr = &contract.ContractFeeRecipientAddressUpdated{Owner: owner, RecipientAddress: rc}
 	case 3: // ClusterLiquidated
 		topicKind = 4
-		ev.cl = &contract.ContractClusterLiquidated{Owner: owner, OperatorIds: zzIDLists[zzChoose("clusterids", 2)]}
+		ev.cl = &contract.ContractClusterLiquidated{Owner: owner, OperatorIds: zzClusterLists[zzChoose("clusterids", 3)]}
 	case 4: // ClusterReactivated
 		topicKind = 5
-		ev.cr = &contract.ContractClusterReactivated{Owner: owner, OperatorIds: zzIDLists[zzChoose("clusterids", 2)]}
+		ev.cr = &contract.ContractClusterReactivated{Owner: owner, OperatorIds: zzClusterLists[zzChoose("clusterids", 3)]}
 	case 5: // unknown event
 		topicKind = 0x77
 	case 6: // OperatorAdded: an id already registered, or a new one (9); with a fresh key or with the own operator's key
